@@ -105,6 +105,10 @@ def run(ctx: Ctx):
             with quiet():
                 pg = PositionGrid(f"{alg}_{N}", text)
                 vol = np.asarray(pg.get_all_position_volumes(), dtype=float)
+                # every getter is asked twice on the same object; the SECOND answer is checked
+                pg.get_adjacency_of_position_grid(); pg.get_borders_of_position_grid(); pg.get_distances_of_position_grid()
+                pg.get_all_position_volumes()
+                vol = np.asarray(pg.get_all_position_volumes(), dtype=float)
                 A = pg.get_adjacency_of_position_grid().toarray()
                 B = pg.get_borders_of_position_grid().toarray()
                 D = pg.get_distances_of_position_grid().toarray()
